@@ -93,9 +93,13 @@ func zzHistoryStep(w *zzWorld, i int, allowPolicy bool, variant *int) {
 	p := "s" + strconv.Itoa(i)
 	nkinds := 3
 	if allowPolicy {
-		nkinds = 5
+		nkinds = 5 + verif.Bound("propagation", 1, 1)
 	}
 	switch verif.Concrete(verif.Choice(p+".kind", nkinds)) {
+	case 5:
+		// a propagation entry recorded for main by an arbitrary signer
+		*variant++
+		w.zzPropagation(zzMain, zzSigner(p+".signer"), *variant)
 	case 0:
 		*variant++
 		w.zzPush(zzMain, zzSigner(p+".signer"), *variant, false)
@@ -127,7 +131,7 @@ func zzVerifyFull(w *zzWorld, ref string) (githash.Hash, error) {
 func zzCheckRef(w *zzWorld, ref string, withGlobals bool) {
 	var events []*zzEvent
 	for k := range w.hist {
-		if w.hist[k].kind == "push" && w.hist[k].ref == ref {
+		if (w.hist[k].kind == "push" || w.hist[k].kind == "propagation") && w.hist[k].ref == ref {
 			events = append(events, &w.hist[k])
 		}
 	}
@@ -140,20 +144,33 @@ func zzCheckRef(w *zzWorld, ref string, withGlobals bool) {
 	}
 
 	allAuthorized := true
+	pushesAuthorized := true
+	unauthorizedPropagation := false
 	for _, e := range events {
 		a := zzAuthorized(w, e)
 		if withGlobals {
 			a = verif.And(a, zzGlobalsSatisfied(w, e))
 		}
 		allAuthorized = verif.And(allAuthorized, a)
+		if e.kind == "propagation" {
+			unauthorizedPropagation = verif.Or(unauthorizedPropagation, !a)
+		} else {
+			pushesAuthorized = verif.And(pushesAuthorized, a)
+		}
 	}
+	// Known finding C01-K2: propagation entries are passed over by
+	// verification (VerifyRelativeForRef: "case *rsl.PropagationEntry:
+	// continue"), so one recorded for a protected branch by anybody is
+	// accepted and its target becomes the verified tip.
+	k2 := verif.And(err == nil, verif.And(pushesAuthorized, unauthorizedPropagation))
+	verif.Witness("C01-K2", k2)
 	label := "[" + ref + "]"
 	// (C11-F1, fixed: with any global rule declared the exhaustive verifier used
 	// to satisfy the verifier loop on its own, so delegation rules were not
 	// enforced)
 	if err == nil {
 		verif.Reach("accepted")
-		verif.Assert(allAuthorized, "accepted-implies-every-entry-authorised"+label)
+		verif.Assert(verif.Or(allAuthorized, k2), "accepted-implies-every-entry-authorised"+label)
 		verif.Assert(tip.Equal(events[len(events)-1].target), "tip-is-latest-target"+label)
 	} else {
 		verif.Reach("rejected")
